@@ -39,6 +39,7 @@ func (l *limiterScript) install() (restore func()) {
 
 type caseB struct {
 	Part        string   `json:"part"`
+	Sizes       []int    `json:"sizes,omitempty"` // when set, write i is a generated pattern of Sizes[i] bytes (large writes)
 	Writes      []string `json:"writes"`
 	Limited     []bool   `json:"limited"`      // the limiter's answer for each write
 	FlushBefore bool     `json:"flush_before"` // a timer tick before the first write
@@ -53,8 +54,31 @@ type outcomeB struct {
 	limExtra int
 }
 
+// pattern is the payload of write i in the large-write family: position- and write-dependent bytes.
+func pattern(i, size int) string {
+	b := make([]byte, size)
+	for j := range b {
+		b[j] = 'a' + byte((7*i+j+j/251)%26)
+	}
+	return string(b)
+}
+
+// abbrev keeps messages about large streams readable.
+func abbrev(b []byte) string {
+	if len(b) <= 48 {
+		return fmt.Sprintf("%q", b)
+	}
+	return fmt.Sprintf("%q..(%d bytes)", b[:24], len(b))
+}
+
 // execB replays one write/flush sequence against the real Conn over a recording socket.
 func execB(cs caseB) (o outcomeB) {
+	if len(cs.Sizes) > 0 {
+		cs.Writes = make([]string, len(cs.Sizes))
+		for i, n := range cs.Sizes {
+			cs.Writes[i] = pattern(i, n)
+		}
+	}
 	rec := NewRecConn()
 	conn := listener.VerifNewConn(rec, 60)
 	lim := &limiterScript{answers: cs.Limited}
@@ -86,7 +110,7 @@ func execB(cs caseB) (o outcomeB) {
 		default:
 			k = "duplicated" // more bytes queued than remain to be sent
 		}
-		o.v = verdict{k, shape, fmt.Sprintf("after %s: written so far %q, socket has %q, %d bytes pending", step, total, sock, pend)}
+		o.v = verdict{k, shape, fmt.Sprintf("after %s: written so far %s, socket has %s, %d bytes pending", step, abbrev(total), abbrev(sock), pend)}
 		return false
 	}
 	flush := func(name string) bool {
@@ -141,13 +165,13 @@ func execB(cs caseB) (o outcomeB) {
 			if k == "" {
 				k = "duplicated"
 			}
-			o.v = verdict{k, shape, fmt.Sprintf("after the timer flush: written %q, socket has %q, %d bytes pending", total, rec.Stream(), conn.Len())}
+			o.v = verdict{k, shape, fmt.Sprintf("after the timer flush: written %s, socket has %s, %d bytes pending", abbrev(total), abbrev(rec.Stream()), conn.Len())}
 		}
 	}); p != "" {
 		o.v = verdict{"panic", "write-path", "write path panicked: " + p}
 	}
 	for _, w := range rec.Writes {
-		o.sockets = append(o.sockets, string(w))
+		o.sockets = append(o.sockets, abbrev(w))
 	}
 	o.limExtra = lim.extra
 	return
@@ -200,6 +224,49 @@ func partB(c *core.Ctx, ag *agg) {
 			}
 		}
 	}
+	// large writes: sizes just above the power-of-two thresholds at which buffered writers commonly change
+	// strategy (bypass the buffer, split, grow), mixed with a small write, every limiter answer and flush placement
+	big := []int{2, 4100, 8200, 66000}
+	if !c.Quick() {
+		big = []int{2, 600, 1100, 2100, 4100, 8200, 16500, 33000, 66000}
+	}
+	var largeCases int64
+	for k := 1; k <= 3; k++ {
+		nl := 1
+		for i := 0; i < k; i++ {
+			nl *= len(big)
+		}
+		if k == 3 && !c.Quick() {
+			continue // 9^3 size triples x 128 placements: pairs suffice for the larger menu
+		}
+		for lc := 0; lc < nl; lc++ {
+			sizes := make([]int, k)
+			x := lc
+			for i := 0; i < k; i++ {
+				sizes[i] = big[x%len(big)]
+				x /= len(big)
+			}
+			for lm := 0; lm < 1<<uint(k); lm++ {
+				for fm := 0; fm < 1<<uint(k); fm++ {
+					for fb := 0; fb < 2; fb++ {
+						cs := caseB{Part: "b", Sizes: sizes, Limited: make([]bool, k), FlushAfter: make([]bool, k), FlushBefore: fb == 1}
+						for i := 0; i < k; i++ {
+							cs.Limited[i] = lm&(1<<uint(i)) != 0
+							cs.FlushAfter[i] = fm&(1<<uint(i)) != 0
+						}
+						o := execB(cs)
+						ord++
+						largeCases++
+						calls += int64(o.calls)
+						if !o.v.ok() {
+							ag.add("write-large:"+o.v.Kind+":"+o.v.Shape, o.v.What, ord, func() interface{} { return cs })
+						}
+					}
+				}
+			}
+		}
+	}
+	c.Add("cases_write_large", largeCases)
 	c.Add("cases_write", cases)
 	c.Add("adapter_calls", calls)
 	c.Set("write_max_writes", 4)
@@ -211,6 +278,9 @@ func partB(c *core.Ctx, ag *agg) {
 
 func replayB(c *core.Ctx, ag *agg, raw json.RawMessage) {
 	var cs caseB
+	if err := json.Unmarshal(raw, &cs); err == nil && len(cs.Sizes) > 0 {
+		cs.Writes = make([]string, len(cs.Sizes))
+	}
 	if err := json.Unmarshal(raw, &cs); err != nil || len(cs.Limited) != len(cs.Writes) || len(cs.FlushAfter) != len(cs.Writes) {
 		core.HarnessFailure("C17 replay: malformed write case")
 	}
